@@ -469,6 +469,9 @@ PROPS['C08']['contracts'] = PROPS['C08']['contracts'] + [c for c in READS[2:4] +
 CREATE = [(D, 'ber.decoder::AbstractSimplePayloadDecoder._createComponent')]
 for _p in ('C10', 'C16', 'C12', 'C01'):
     PROPS[_p]['contracts'] = PROPS[_p]['contracts'] + CREATE
+RAW_DEF = [(D, 'ber.decoder::RawPayloadDecoder.valueDecoder')]
+for _p in ('C13', 'C09', 'C07'):
+    PROPS[_p]['contracts'] = PROPS[_p]['contracts'] + RAW_DEF
 for _p in list(PROPS):
     NOT_CLAIMED.pop(_p, None)
 
